@@ -252,6 +252,35 @@ theorem pending_served_by_next_connection (rs : Reqs) (rest : List ConnEvent) :
   mainLoop_serveAll rest rs.queue rs rfl
 
 open Lemmas.ClientReqs in
+/-- Several local connections waiting when a connection fails one of them: the request at the head
+    of the command channel that fails (`penguin_mux` error) or times out is parked, `on_connected`
+    returns that error, and every request queued behind it is STILL IN THE CHANNEL, in order,
+    followed by whatever arrives afterwards — the loop takes one command per trip through `select!`,
+    so nothing but the failed request has left the channel. -/
+theorem failed_request_keeps_rest_queued (rs : Reqs) (r : Req) (q : List Req) (post : List ConnEvent)
+    (res : StreamRes) (hres : res = .timeout ∨ ∃ e, res = .muxErr e)
+    (hp : rs.parked = none) (hq : rs.queue = r :: q) :
+    let out := mainLoop rs (.serveNext res :: post)
+    out.1.parked = some r ∧ out.1.queue = q ++ evArrivals post ∧ out.1.lost = rs.lost ∧
+    out.1.served = rs.served ∧ ∃ e, out.2 = .exit (.error e) ∧ e ≠ .cancelled := by
+  rcases hres with rfl | ⟨e, rfl⟩ <;>
+    simp [mainLoop, hq, getSendStreamChan, Reqs.park, hp, drainArrivals_eq, Reqs.enqueue]
+
+open Lemmas.ClientReqs in
+/-- … and the next connection that works serves the parked request first and then every request
+    that was queued behind it, in order (all of them by that one connection). -/
+theorem queued_requests_survive_failed_connection (rs : Reqs) (r : Req) (q : List Req)
+    (rest : List ConnEvent) (hp : rs.parked = some r) (hq : rs.queue = q) :
+    onConnected rs .ok (serveAll q.length ++ rest) =
+      mainLoop { rs with parked := none, queue := [],
+                         served := rs.served ++ (r, rs.gen) :: q.map (·, rs.gen) } rest := by
+  unfold onConnected
+  rw [hp]
+  simp only [getSendStreamChan]
+  rw [mainLoop_serveAll rest q _ (by simpa using hq)]
+  simp [List.append_assoc]
+
+open Lemmas.ClientReqs in
 /-- No request is lost, duplicated or reordered: for every back-off state and every script of
     attempts in which the user does not cancel a stream request, the requests served (in that
     order), then the one in flight, the parked one and the queued ones are exactly the local
@@ -362,7 +391,16 @@ example : Lemmas.ClientReqs.noCancel (.up .ok [.arrive 1, .serveNext .timeout]) 
   simp [Lemmas.ClientReqs.noCancel, Lemmas.ClientReqs.isCancel, Lemmas.ClientReqs.cancels]
 -- a whole run: refused, refused (request 1 arrives), connected and cut, refused, healthy
 example : (runScenario { maxRetryCount := 0, maxRetryInterval := 1000, handshakeTimeout := some 300, channelTimeout := some 300 }
-    [⟨.refuse, none⟩, ⟨.refuse, some 1⟩, ⟨.closeAbrupt 300, none⟩, ⟨.refuse, none⟩, ⟨.healthy, some 2⟩]).sleeps
+    [⟨.refuse, []⟩, ⟨.refuse, [1]⟩, ⟨.closeAbrupt 300, []⟩, ⟨.refuse, []⟩, ⟨.healthy, [2]⟩]).sleeps
     = [200, 400, 200, 400] := by decide
+-- two local connections accepted while the tunnel was down, then a connection on which the first
+-- stream request times out: request 1 is parked, request 2 stays queued, the next connection
+-- serves both (attempt 3), nothing is lost; the same with the connection cut instead of silent
+example : (runScenario { maxRetryCount := 0, maxRetryInterval := 1000, handshakeTimeout := some 300, channelTimeout := some 300 }
+    [⟨.refuse, [1]⟩, ⟨.refuse, [2]⟩, ⟨.mute, []⟩]).reqs = { parked := some 1, queue := [2], gen := 3 } := by decide
+example : (runScenario { maxRetryCount := 0, maxRetryInterval := 1000, handshakeTimeout := some 300, channelTimeout := some 300 }
+    [⟨.refuse, [1]⟩, ⟨.refuse, [2]⟩, ⟨.mute, []⟩, ⟨.healthy, []⟩]).reqs.served = [(1, 3), (2, 3)] := by decide
+example : (runScenario { maxRetryCount := 0, maxRetryInterval := 1000, handshakeTimeout := some 300, channelTimeout := some 300 }
+    [⟨.stall, [1, 2, 3]⟩, ⟨.muteCut 100, []⟩, ⟨.healthy, [4]⟩]).reqs.served = [(1, 2), (2, 2), (3, 2), (4, 2)] := by decide
 
 end Penguin.C19
